@@ -365,7 +365,7 @@ Example C05_retry_body_bytes_nonvacuous :
   let evs := [MAttempt; MGet 0; MWrite 0 [9; 9]; MPut 0; MAttempt] in
   mrun false (new_body (mk_mem [] [] []) [1; 2; 3]) evs = [[1; 2; 3]; [1; 2; 3]] /\
   mrun true (new_body (mk_mem [] [] []) [1; 2; 3]) evs = [[1; 2; 3]; [9; 9; 3]].
-Proof. split; [exact mem_wf_empty|exact pooled_close_differs]. Qed.
+Proof. exact retry_body_bytes_witness. Qed.
 
 (* the observation format of the concurrent cases recognises a request's own pattern body *)
 Theorem C05_own_bytes_of_pattern : forall salt len, own_bytes (desc_of_pat salt len) salt len = true.
